@@ -110,6 +110,24 @@ CLAIMS = {
                   "(MIR), closure capture substitution, guard-fact entailment",
         witness=True,
     ),
+    "C13": dict(
+        text="Decides the conditions under which a container could influence a result at all: no "
+             "kernel or typed entry point (465 signatures) names a concrete container type, so "
+             "kernels observe images only through ImageView/ImageViewMut (parametricity; W6 in the "
+             "thorough tier); contiguous containers yield rows of exactly self.width pixels from "
+             "start_row*self.width, cropped views yield [left, left+width) of rows top+start_row "
+             "bounded by height; the 15 dynamic entry points do no pixel processing of their own; "
+             "inside kernels no align_to with a stricter alignment than the row element and no "
+             "pointer inspection (address independence). Does NOT decide that the specialised "
+             "overrides (iter_rows_with_step, slice splits) equal the trait defaults, nor any "
+             "equality between two runs; row-end over-reads belong to the load-width rule.",
+        note="Parametricity argument: Rust generics without specialisation/TypeId; the unsafe "
+             "trait contract (rows >= width) is assumed for user views.",
+        technique="static analysis: signature scan of the type-checked program, structural "
+                  "matching of row iterators, call-graph purity of dispatchers, intrinsic/cast "
+                  "scan; compile-fail witness",
+        witness=True,
+    ),
     "C14": dict(
         text="For all 17 split implementations: parts are returned only after num_parts <= size "
              "<= extent and start <= extent - size on the split axis (or pure delegation); loop "
